@@ -143,6 +143,11 @@ def run_template(prop, template_path, repo_root=None, rlimit=30, timeout=600, ex
     except Exception:
         pass
     res["new_unannotated_closures"] = new_closures
+    lost_ghost = {}
+    for rw in meta.get("rewrites", []):
+        if rw.get("rule") == "ghost-anchor-lost":
+            lost_ghost.setdefault(rw["item"], []).append(rw["from"])
+    res["lost_ghost_anchors"] = lost_ghost
     lines = text.split("\n")
     errors = [d for d in diags if d.get("level") == "error" and not d.get("message", "").startswith("aborting due to")]
     # R39: unknown free functions called by the extracted code -> pull them from the source file and run again (at most 3 rounds)
@@ -193,7 +198,13 @@ def run_template(prop, template_path, repo_root=None, rlimit=30, timeout=600, ex
             # the function now contains a closure literal Verus has no contract for: the proof cannot see what it does, so this
             # failure is lack of information (it would also fail for a correct body) => undecided, never an alarm
             f["tool_limit"] = True
+            f["demoted"] = True
             f["message"] = msg + f" [undecided: {item['sel']} gained closure(s) without a contract: {new_closures[item['sel']][:2]}]"
+        if not f.get("tool_limit") and item and item["sel"] in lost_ghost:
+            # the proof of this item lost ghost hints whose splice points no longer exist: a failure may be a missing hint
+            f["tool_limit"] = True
+            f["demoted"] = True
+            f["message"] = msg + f" [undecided: lost anchor: ghost splice point(s) {lost_ghost[item['sel']][:3]} in {item['sel']} no longer exist]"
         res["failures"].append(f)
     if not errors and vr.get("success") and rc == 0:
         res["ok"] = True
